@@ -38,7 +38,8 @@ class Ctx:
         self.trusted = []
         cfgs = configs or extract.ALL_CONFIGS
         try:
-            outdir, meta = extract.ensure_facts(cfgs)
+            # thorough tier: never trust the content-addressed fact cache, extract again
+            outdir, meta = extract.ensure_facts(cfgs, force=(tier == "thorough"))
         except RuntimeError as e:
             raise Infra(str(e))
         self.meta = meta
